@@ -528,7 +528,8 @@ def validateSiacoins (ms : Mid) (t : Txn1) : VM Unit := do
       | some p =>
         if sci.ucAddr ≠ p.addr then reject "siacoin input claims incorrect unlock conditions"
         else if p.maturity > ms.base.child then reject "siacoin input has immature parent"
-        else addC sum p.value) 0
+        -- checked: a parent listed twice is only detected later, by `validateSignatures`
+        else if sum + p.value < curLimit then pure (sum + p.value) else reject "siacoin inputs overflow") 0
   let o1 ← t.scOuts.foldlM (fun s o => addC s o.2.value) 0
   let o2 ← t.fcs.foldlM (fun s f => addC s f.2.payout) o1
   -- miner fees are not covered by `validateCurrencyOverflow`: checked addition, overflow rejects
@@ -720,8 +721,9 @@ def validateV2Siacoins (ms : Mid) (t : Txn2) : VM Unit := do
     addC b tax) outputSum0
   let (inputSum, outputSum2) ← t.ress.foldlM (fun ((i, o) : Cur × Cur) r => match r.res with
     | .renewal rn => do
-      let i1 ← addC i rn.renterRollover
-      let i2 ← addC i1 rn.hostRollover
+      -- checked: the rollovers are bounded by the overflow pre-check, their sum with the inputs is not
+      let i1 ← if i + rn.renterRollover < curLimit then pure (i + rn.renterRollover) else reject "siacoin inputs overflow"
+      let i2 ← if i1 + rn.hostRollover < curLimit then pure (i1 + rn.hostRollover) else reject "siacoin inputs overflow"
       let a ← addC o rn.newContract.renter.value
       let b ← addC a rn.newContract.host.value
       let tax ← v2Tax rn.newContract
